@@ -33,8 +33,8 @@ func main() {
 
 func run(c *core.Ctx) {
 	c.SetRule("cases run the real kafka input plugin in a real pipeline (2*GOMAXPROCS processors, spread mode as the plugin asks) against a loopback Kafka broker, one child process per case under -race. " +
-		"grid: topic lists of 1..4 topics x every topic index x partitions {0,1,255,65535} x offsets {0,1,2^16-1,2^16,2^16+1,2^31-1,2^31,2^31+1,2^47-1} x epochs {0,1,65535}, one record in flight, through the real partition consumers (complete enumeration); " +
-		"inject: seeded concurrent hand-made fetches with extreme partitions/offsets/epochs; sched: seeded logs (1-4 topics x 1-4 partitions, offset gaps, epoch bumps, empty/unparsable/oversize values, resumed-from-commit partitions) served by the broker through the real poll loop, script action delays/discards, batch size 1-8 x workers 1-4 x send delays, 2-16 processors; " +
+		"grid: topic lists of 1..4 distinct topics and lists that repeat a name ([a,a], [a,a,b], [a,b,a,c], ...) x every topic x partitions {0,1,255,65535} x offsets {0,1,2^16-1,2^16,2^16+1,2^31-1,2^31,2^31+1,2^47-1} x epochs {0,1,65535}, one record in flight, through the real partition consumers (complete enumeration); " +
+		"inject: seeded concurrent hand-made fetches with extreme partitions/offsets/epochs; sched: seeded logs (1-4 topics x 1-4 partitions, 40% of the topics lists repeat a name with a distinct topic after the repetition, offset gaps, epoch bumps, empty/unparsable/oversize values, resumed-from-commit partitions) served by the broker through the real poll loop, script action delays/discards, batch size 1-8 x workers 1-4 x send delays, 2-16 processors; " +
 		"stop-early: the input plugin is stopped (Plugin.Stop commits the marked offsets) while slow events are in flight; directed: an earlier record is held in the action (d-spread) or in the output's send (d-output) until a later record of the partition has been committed / acknowledged. " +
 		"Every marked head read after every Commit/In and every OffsetCommit received by the broker is judged (P1 packing, P2 frontier). distinct = configuration class x observed phenomena (completion inversions, refused records, resumed partitions, classes of frontier passes); non-trivial = at least one mark judged")
 	c.Assume("plan A of DESIGN §C10: Plugin.Start/NewClient/Ping/consumer group/PollRecords/auto-commit/Stop run unmodified against a loopback broker written from the Kafka protocol docs with franz-go's kmsg codec (single member, no rebalance, Fetch v6, no transactions); the franz-go client itself is trusted (forward-only marks ordered by (epoch, offset), auto-commit sends the marked heads)")
@@ -50,6 +50,13 @@ func run(c *core.Ctx) {
 	for k := 1; k <= 4; k++ {
 		for o := 0; o < orders; o++ {
 			cases = append(cases, gridCase(k, o))
+		}
+	}
+	// the grid again with topics lists that name a topic twice ([a,a], [a,a,b], [a,b,a,c], ...)
+	for o := 0; o < orders; o++ {
+		cases = append(cases, gridRepeatCase(1, []int{0, 0}, o), gridRepeatCase(2, []int{0, 0, 1}, o), gridRepeatCase(3, []int{0, 1, 0, 2}, o))
+		if c.Thorough() {
+			cases = append(cases, gridRepeatCase(3, []int{0, 0, 1, 1, 2}, o), gridRepeatCase(4, []int{0, 1, 2, 2, 3}, o))
 		}
 	}
 	for i := 0; i < nDirected; i++ {
@@ -155,6 +162,9 @@ func run(c *core.Ctx) {
 		need(k, "marks_exact", "a Commit after which the partition's marked offset is that record's offset+1")
 		need(k, "p1_ok_mark", "a marked head that is offset+1/epoch of a handed record")
 		need(k, "p1_ok_broker", "an OffsetCommit received by the broker that is offset+1/epoch of a handed record")
+	}
+	for _, k := range []string{"grid", "inject", "sched"} {
+		need(k, "heads_judged_with_a_repeated_topic_in_the_topics_list", "marks judged in a case whose topics list names a topic more than once")
 	}
 	need("grid", "final_broker_commit_equals_head", "the final committed offsets at the broker equal to the last marked heads")
 	need("sched", "final_broker_commit_equals_head", "the final committed offsets at the broker equal to the last marked heads")
